@@ -166,4 +166,81 @@ def specEq [BEq ν] (a b : Spec κ ν) : Except Err Bool :=
 
 end
 
+/-! ### The cached row count of a category (`_row_count`)
+
+`CIFCategory` / `BinaryCIFCategory` cache the row count in `row_count` and in `serialize()`.
+Model of the code *after* the `fix:` commits: `__setitem__` and `__delitem__` forget the cache.
+A column is represented by its length only. -/
+
+structure RC (κ : Type) where
+  cols : List (κ × Nat)
+  cache : Option Nat
+  deriving Repr
+
+inductive RCOp (κ : Type) where
+  | set (k : κ) (n : Nat) | del (k : κ) | ser | count
+  deriving Repr
+
+/-- the loop at the top of `serialize()`: (cache afterwards, all columns agree with it) -/
+def rcSerLoop {κ : Type} : Option Nat → List (κ × Nat) → Option Nat × Bool
+  | c, [] => (c, true)
+  | none, (_, n) :: rest => rcSerLoop (some n) rest
+  | some m, (_, n) :: rest => if n != m then (some m, false) else rcSerLoop (some m) rest
+
+def rcStep {κ : Type} [BEq κ] (binary : Bool) (s : RC κ) : RCOp κ → RC κ × Except Err (Option Nat)
+  | .set k n => (⟨dictSet k n s.cols, none⟩, .ok none)
+  | .del k =>
+    if !binary && s.cols.length == 1 then (s, .error .valueError)
+    else match lookup k s.cols with
+      | none => (s, .error .keyError)
+      | some _ => (⟨erase k s.cols, none⟩, .ok none)
+  | .ser =>
+    if s.cols.isEmpty then (s, .error (if binary then serr else .valueError))
+    else
+      let r := rcSerLoop s.cache s.cols
+      if r.2 then (⟨s.cols, r.1⟩, .ok r.1) else (⟨s.cols, r.1⟩, .error serr)
+  | .count =>
+    match s.cache with
+    | some n => (s, .ok (some n))
+    | none =>
+      match s.cols with
+      | [] => (s, .error (.other "StopIteration"))
+      | (_, n) :: _ => (⟨s.cols, some n⟩, .ok (some n))
+
+def rcRun {κ : Type} [BEq κ] (binary : Bool) : RC κ → List (RCOp κ) → RC κ × List (Except Err (Option Nat))
+  | s, [] => (s, [])
+  | s, op :: ops =>
+    let r := rcStep binary s op
+    let r' := rcRun binary r.1 ops
+    (r'.1, r.2 :: r'.2)
+
+/-- Specification without any cache: what a serialisation of the *current* columns must give. -/
+def rcSpecSer {κ : Type} (binary : Bool) (cols : List (κ × Nat)) : Except Err (Option Nat) :=
+  match cols with
+  | [] => .error (if binary then serr else .valueError)
+  | (_, n) :: rest => if rest.all (fun kv => kv.2 == n) then .ok (some n) else .error serr
+
+/-- One operation on the plain columns (no cache at all). -/
+def rcSpecStep {κ : Type} [BEq κ] (binary : Bool) (cols : List (κ × Nat)) :
+    RCOp κ → List (κ × Nat) × Except Err (Option Nat)
+  | .set k n => (dictSet k n cols, .ok none)
+  | .del k =>
+    if !binary && cols.length == 1 then (cols, .error .valueError)
+    else match lookup k cols with
+      | none => (cols, .error .keyError)
+      | some _ => (erase k cols, .ok none)
+  | .ser => (cols, rcSpecSer binary cols)
+  | .count =>
+    match cols with
+    | [] => (cols, .error (.other "StopIteration"))
+    | (_, n) :: _ => (cols, .ok (some n))
+
+def rcSpecRun {κ : Type} [BEq κ] (binary : Bool) :
+    List (κ × Nat) → List (RCOp κ) → List (κ × Nat) × List (Except Err (Option Nat))
+  | c, [] => (c, [])
+  | c, op :: ops =>
+    let r := rcSpecStep binary c op
+    let r' := rcSpecRun binary r.1 ops
+    (r'.1, r.2 :: r'.2)
+
 end BiotiteModel.C06
